@@ -28,4 +28,9 @@ for t in range(5):
     add("transform_" + TRN[t], "h_transform", ["hwloc_distances_transform", "hwloc__distances_transform_" + TRN[t] if t < 4 else "hwloc_distances_transform", "hwloc_internal_distances_restrict", "is_nvswitch"],
         {"quick": nb(n, **d), "thorough": nb(n + 1 if t != 1 else 2, **d)})
 add("dup", "h_dup", ["hwloc_internal_distances_dup", "hwloc_internal_distances_dup_one", "hwloc_tma_malloc", "hwloc_tma_strdup"], {"quick": nb(2), "thorough": nb(3)}, units=["hwloc/topology.c", "hwloc/bitmap.c"])
+# the XML round trip is decided by the element-tree harness of C05 (same source, same query)
+import importlib.util as _iu, os as _os
+_s = _iu.spec_from_file_location("spec_C05", _os.path.join(_os.path.dirname(__file__), "C05.py")); _m5 = _iu.module_from_spec(_s); _s.loader.exec_module(_m5)
+for _h in _m5.HARNESSES:
+    if _h["name"] in ['xml_roundtrip_distances']: _h2 = dict(_h); _h2["name"] = "C05_" + _h["name"]; HARNESSES.append(_h2)
 OUTSIDE = ["hwloc__groups_by_distances (floating-point accuracies, Group insertion)", "PU/NUMA os_index based lookup during refresh (needs a level array; the gp_index path is encoded)", "matrices larger than 4x4", "XML / shmem persistence (C05, C19)"]
